@@ -333,8 +333,12 @@ impl HitObjectsState {
 
     /// Whether the last object was a spinner.
     fn last_object_was_spinner(&self) -> bool {
-        self.last_object
-            .is_some_and(|kind| kind.has_flag(HitObjectType::SPINNER))
+        // The circle and slider flags take precedence over the spinner flag
+        // so an object with one of those was not parsed as a spinner.
+        self.last_object.is_some_and(|kind| {
+            !kind.has_flag(HitObjectType::CIRCLE | HitObjectType::SLIDER)
+                && kind.has_flag(HitObjectType::SPINNER)
+        })
     }
 
     /// Given a `&str` iterator, this method prepares a slice and provides
